@@ -14,7 +14,7 @@ def m_propagate_phaseless_ad : Prog := (Prog.seq (Prog.op (Op.other "optimize"))
 def m_propagate_phaseless_ad_1 : Prog := (Prog.seq (Prog.op (Op.other "modified_cholesky")) (Prog.seq (Prog.op (Op.other "optimize")) (Prog.seq (Prog.op (Op.other "build_measurement_intermediates")) (Prog.seq (Prog.op (Op.other "build_propagation_intermediates")) m__ad_block))))
 def m_propagate_phaseless_ad_nosr : Prog := (Prog.seq (Prog.op (Op.other "optimize")) (Prog.seq (Prog.op (Op.other "build_measurement_intermediates")) (Prog.seq (Prog.op (Op.other "build_propagation_intermediates")) (Prog.seq (Prog.op Op.refresh) (Prog.seq (Prog.op (Op.other "set:n_killed_walkers")) (Prog.seq (Prog.op (Op.other "set:pop_control_ene_shift")) (Prog.seq (Prog.scan "n_ene_blocks" m__block_scan) (Prog.op (Op.other "set:n_killed_walkers")))))))))
 def m_propagate_phaseless_ad_norot : Prog := (Prog.seq (Prog.op (Op.other "build_measurement_intermediates")) (Prog.seq (Prog.op (Op.other "build_propagation_intermediates")) m__ad_block))
-def m_propagate_phaseless_ad_nosr_norot : Prog := (Prog.seq (Prog.op (Op.other "build_measurement_intermediates")) (Prog.seq (Prog.op (Op.other "build_propagation_intermediates")) (Prog.seq (Prog.op (Op.other "set:n_killed_walkers")) (Prog.seq (Prog.op (Op.other "set:pop_control_ene_shift")) (Prog.seq (Prog.scan "n_ene_blocks" m__block_scan) (Prog.op (Op.other "set:n_killed_walkers")))))))
+def m_propagate_phaseless_ad_nosr_norot : Prog := (Prog.seq (Prog.op (Op.other "build_measurement_intermediates")) (Prog.seq (Prog.op (Op.other "build_propagation_intermediates")) (Prog.seq (Prog.op Op.refresh) (Prog.seq (Prog.op (Op.other "set:n_killed_walkers")) (Prog.seq (Prog.op (Op.other "set:pop_control_ene_shift")) (Prog.seq (Prog.scan "n_ene_blocks" m__block_scan) (Prog.op (Op.other "set:n_killed_walkers"))))))))
 def m_propagate_phaseless : Prog := (Prog.seq (Prog.op Op.refresh) (Prog.seq (Prog.op (Op.other "set:n_killed_walkers")) (Prog.seq (Prog.op (Op.other "set:pop_control_ene_shift")) (Prog.seq (Prog.scan "n_sr_blocks" m__sr_block_scan) (Prog.op (Op.other "set:n_killed_walkers"))))))
 def m_propagate_free : Prog := (Prog.seq (Prog.op Op.refresh) (Prog.scan "n_blocks" m__block_scan_free))
 def m___hash__ : Prog := Prog.skip
